@@ -25,6 +25,7 @@ OBLIGATIONS = ["NiftyVerif.C01." + t for t in (
     "chainAppend_sound", "chainNullCollapse_sound", "chainPost_sound", "chainSimplifyCore_sound", "mkChainU_sound",
     "sumAbsorb_sound", "sumAbsorbDiags_sound", "sumMergeDiags_sound", "sumScalings_split", "sumProcessGroup_sound",
     "groupKeys_spec", "ssum_groups", "sumFlatten_sound", "sumSimplify_sound", "mkSumU_sound",
+    "sum_no_inverse_modes", "flip_member", "flip_sound", "invEnabler_invop_sound",
 )]
 RULE = ("random construction scripts (typed generator over 8 small domains, 14 leaves with independently known exact "
         "matrices, scaling/diagonal/partial-space diagonal/null/block-diagonal/sandwich/InversionEnabler, combined with "
@@ -214,7 +215,19 @@ def gen_targeted(W, rng):
     def bin_(op, a, b):
         return dict(op=op, a=a, b=b, d=d, t=d)
     kind = rng.choice(["sum-absorb", "sum-absorb", "sum-diags", "chain-scal", "chain-scal", "chain-diags", "flip-chain",
-                       "sandwich-scal", "block", "block", "neg-single"])
+                       "sandwich-scal", "block", "block", "neg-single", "enabler-chain"])
+    if kind == "enabler-chain":
+        # InversionEnabler around a Hermitian positive definite CHAIN that advertises only TIMES and ADJOINT_INVERSE_TIMES:
+        # ADJOINT_TIMES / INVERSE_TIMES are then solved numerically with `chain._flip_modes(3)` / `_flip_modes(1)`
+        b, c = W.spd_chain_leaves
+        ch = dict(op="matmul", a=dict(op="leaf", id=b, d=0, t=0), b=dict(op="leaf", id=c, d=0, t=0), d=0, t=0)
+        e = dict(op="invEnabler", a=ch, d=0, t=0)
+        r = rng.random()
+        if r < 0.3:
+            e = dict(op="matmul", a=e, b=atom_diag(W, rng, 0), d=0, t=0)
+        elif r < 0.5:
+            e = dict(op="adjoint", a=e, d=0, t=0)
+        return e
     if kind == "sum-absorb":
         # X ± D ± c (in random order and nesting): the summed scaling goes into the first diagonal with its sign
         terms = [other(), diag(), scal()] + ([scal()] if rng.random() < 0.4 else []) + ([diag()] if rng.random() < 0.3 else [])
